@@ -60,6 +60,7 @@ def run(ctx):
     traces = O.record(jobs)
     ctx.cov["recorded_random"] += len(traces)
     O.validate(ctx, traces, "random")
+    seeded_parallel(ctx)
     from harness.drivers import _modes
     _modes.check_parallel_extras(ctx)
     ctx.assumptions += ["completion order is perturbed by a sleep that decreases with the parameter code; natural races "
@@ -67,7 +68,46 @@ def run(ctx):
                         "merged data (which codes the applied values) is validated for them"]
 
 
+def seeded_parallel(ctx):
+    """Seeded stochastic pipelines: whatever the scheduler, every run draws the first values of the seed's own
+    stream (PyxelSeedThreads: C04T_Reproducible) and the process-wide generator is restored."""
+    from harness import check, obs, seedthreads
+    jobs = [dict(dask=False)]
+    for sch, w in SCHEDS[:5] + ([("processes", 2)] if ctx.tier == "thorough" else []):
+        for delay in ctx.pick([20.0], [0.0, 5.0, 20.0, 60.0]):
+            jobs.append(dict(dask=True, scheduler=sch, workers=w, delay=delay,
+                             levels=[1.0, 2.0, 3.0, 4.0][:ctx.pick(4, 4)]))
+    results = check.pmap(obs.seeded_job, jobs, chunksize=1)
+    ctx.cov["replayed_cases"] += len(results)
+    for r in results:
+        case = {"kind": "seeded", "job": r["job"]}
+        if r["error"]:
+            ctx.violation("parallel.seeded.failed", f"seeded observation failed under {r['job']}: {r['error']}", case, {})
+            continue
+        bad = [x for x in r["runs"] if not (x["own_stream_photon"] and x["own_stream_signal"])]
+        if bad:
+            ctx.violation("parallel.seeded", f"with pipeline_seed the runs {bad} did not draw from the seed's own stream "
+                          f"under scheduler {r['job'].get('scheduler')}/{r['job'].get('workers')}", case,
+                          {"scheduler": r["job"].get("scheduler")})
+        if not r["restored"] and r["job"].get("scheduler") != "processes":
+            ctx.violation("parallel.seeded.restored", "the process-wide generator is not restored after a seeded "
+                          f"observation under {r['job'].get('scheduler')}/{r['job'].get('workers')}", case, {})
+    ctx.notes["seeded_stochastic_observations"] = len(results)
+    # forced overlaps of seeded blocks (TLC-generated schedules of PyxelSeedThreads)
+    seedthreads.check_threads(ctx)
+
+
 def replay(ctx, payload):
+    if payload["case"].get("kind") == "threads":
+        from harness import seedthreads
+        return seedthreads.replay_threads(ctx, payload)
+    if payload["case"].get("kind") == "seeded":
+        from harness import obs
+        r = obs.seeded_job(payload["case"]["job"])
+        print(r)
+        if r["error"] or not r.get("restored") or any(not (x["own_stream_photon"] and x["own_stream_signal"]) for x in r["runs"]):
+            ctx.violation("parallel.seeded", f"{r}", payload["case"], {})
+        return ctx.finish()
     if payload["case"].get("kind") in ("eval", "calib"):
         from harness.drivers import _calib
         return _calib.replay(ctx, payload)
